@@ -28,6 +28,10 @@ def select_rows(n, sel):
         if sel.ndim != 1 or len(sel) != n:
             raise Refuse("mask length")
         return "rows", [i for i in range(n) if sel[i]]
+    if isinstance(sel, list) and len(sel) > 0 and all(isinstance(b, (bool, np.bool_)) for b in sel):
+        if len(sel) != n:                      # a plain list of bools is a mask, as in numpy
+            raise Refuse("mask length")
+        return "rows", [i for i in range(n) if sel[i]]
     if isinstance(sel, (list, np.ndarray)):
         out = []
         for i in sel:
